@@ -238,6 +238,11 @@ func (w *Update) plantMarkers(v reflect.Value, seed uint64) {
 						f.Set(reflect.ValueOf(&v2.SdsConfig{}))
 						w.Stats["tls_positions_with_sds_source"]++
 					}
+					// ... and a fifth are contexts of an extension type (the built-in "sni_verify")
+					if f := v.FieldByName("Type"); f.IsValid() && f.CanSet() && f.Kind() == reflect.String && sim.Mix(seed^0x74797065, uint64(len(w.mark)))%5 == 0 {
+						f.SetString("sni_verify")
+						w.Stats["tls_positions_of_extension_type"]++
+					}
 					w.mark = append(w.mark, k)
 				}
 				return
